@@ -59,6 +59,9 @@ class AbsSet:
         return z3.BoolVal(False) if t is None else t
 
 
+_STORED_KIND = {}
+
+
 class HavocState:
     """A module-level object that some function of the package mutates: its content at the time of a call is unknown
     (it depends on the history of the process), so every observation of it is an unconstrained value."""
@@ -81,13 +84,33 @@ class HavocState:
             self._memo[key] = self._fresh('has')
         return mk_bool(self._memo[key])
 
+    def _learn(self, v):
+        # the kind of value the code stores into this container (learned on the miss paths, which are explored first):
+        # an element read later is an unconstrained value of that kind
+        from .values import Sym
+        if isinstance(v, bool) or (isinstance(v, Sym) and v.ty == 'bool'):
+            _STORED_KIND.setdefault(self.name, 'bool')
+        elif isinstance(v, int) or (isinstance(v, Sym) and v.ty == 'int'):
+            _STORED_KIND.setdefault(self.name, 'int')
+
+    def _element(self, ex):
+        from .symex import Opaque
+        kind = _STORED_KIND.get(self.name)
+        self._n += 1
+        if kind == 'int':
+            return mk_int(z3.Int(f'{self.name}[?]!{self._n}'))
+        if kind == 'bool':
+            return mk_bool(z3.Bool(f'{self.name}[?]!{self._n}'))
+        return Opaque(f'{self.name}[?]')
+
     def sym_getitem(self, ex, k):
-        from .symex import PyRaise, make_exc, Opaque
-        if ex.branch(self._fresh('hit'), tag='havoc-hit'):
-            return Opaque(f'{self.name}[?]')
-        raise PyRaise(make_exc('KeyError', 'key'))
+        from .symex import PyRaise, make_exc
+        if ex.branch(z3.Not(self._fresh('hit')), tag='havoc-miss'):
+            raise PyRaise(make_exc('KeyError', 'key'))
+        return self._element(ex)
 
     def sym_setitem(self, ex, k, v):
+        self._learn(v)
         self._memo.clear()
 
     def sym_delitem(self, ex, k):
@@ -112,8 +135,10 @@ class HavocState:
             def get(ex, me, k, default=None):
                 if name != 'get':
                     me._memo.clear()
-                if ex.branch(me._fresh('hit'), tag='havoc-hit'):
-                    return Opaque(f'{me.name}[?]')
-                return default
+                if name == 'setdefault':
+                    me._learn(default)
+                if ex.branch(z3.Not(me._fresh('hit')), tag='havoc-miss'):
+                    return default
+                return me._element(ex)
             return BoundBuiltin(f'{self.name}.{name}', get, self)
         return None
